@@ -24,8 +24,14 @@ def plan(tier):
         PG.memory_leak_respawn(1, None, "nowait"), PG.cancel_run(6, 1),
         PG.submit_cancel_shutdown(1, True), PG.submit_cancel_shutdown(2, False),
         PG.resubmit_from_callback("bad_arg", 1), PG.resubmit_from_callback("die", 2),
+        PG.shutdown_in_callback("shutdown"), PG.shutdown_in_callback("shutdown_wait"),
+        PG.shutdown_in_callback("shutdown_kill"), PG.with_body_raises(2, 2),
+        PG.shutdown_twice(2, True), PG.shutdown_twice(2, False), PG.late_callbacks(1),
+        PG.map_partial(2, (5,), 3), PG.map_partial(1, (4,), 0),
     ]
     pl = [(p, 1, dict(kinds=("P", "T", "K"))) for p in progs]
+    # a worker taken down by any signal: the futures still resolve
+    pl += [(PG.die_code(code, 2), 0, dict(kinds=("P",))) for code in list(range(-64, 0)) + [0, 1, 255]]
     # other scheduling policies (see DESIGN 11.2): a delayed user thread, an eager manager
     pl += [(PG.two_submitters(2, 0.05), 1, dict(kinds=("P", "T"), starve="parent:user")),
            (PG.submit_vs_shutdown(1, True), 1, dict(kinds=("P", "T", "K"), starve="parent:user")),
